@@ -1,7 +1,7 @@
 (* C06 — clip / mask / where restrict the domain exactly; isna / notna report it. *)
 From Coq Require Import List QArith Qcanon.
 Require Import SC.Base.Ord SC.Base.Val SC.Base.Series SC.Model.Repr SC.Model.Ops SC.Model.Masking SC.Model.Sampling.
-Require Import SC.Spec.Den SC.Proofs.OpsFacts SC.Proofs.MaskFacts SC.Proofs.ClipFacts.
+Require Import SC.Spec.Den SC.Proofs.OpsFacts SC.Proofs.MaskFacts SC.Proofs.ClipFacts SC.Proofs.LayerFacts.
 
 (* f.clip(a, b): f between a and b, undefined elsewhere; a missing bound leaves that side unrestricted.
    [inside s lo hi x]: lo <= x < hi for the right limit (s = false), lo < x <= hi for the left limit *)
@@ -41,6 +41,14 @@ Theorem where_tuple_is_clip :
   forall (D : Type) (O : Ord D) (f : stairs D) (lo hi : option D), where_tuple f lo hi = clip f lo hi.
 Proof. reflexivity. Qed.
 Print Assumptions where_tuple_is_clip.
+
+(* mask((a, b)): undefined where the indicator of [a, b) (built by layering value 1) is non-zero *)
+Theorem mask_tuple_masks_the_interval :
+  forall (D : Type) (O : Ord D) (f r : stairs D) (lo hi : option D), wf f -> mask_tuple f lo hi = Ok r ->
+    wf r /\ forall sd x, lim sd r x =
+      if Qceqb (contrib (strict_of sd) (lo, hi, Q2Qc 1) x) (Q2Qc 0) then lim sd f x else None.
+Proof. intros D O. exact mask_tuple_spec. Qed.
+Print Assumptions mask_tuple_masks_the_interval.
 
 Theorem isna_notna_indicators :
   forall (D : Type) (O : Ord D) (f : stairs D), wf f ->
